@@ -95,6 +95,9 @@ structure Agree (ops : BatOps α B) (b : StatBatS α B) (pw : α) (v : Option α
     avg = val v
   discharge : ∀ bat' avg, pw < 0 → ops.unload b.bat none none (some (-pw)) = .ok (bat', avg) → -avg = val v
   idle : 0 ≤ pw → ¬ b.minChargingPower ≤ pw → val v = 0
+  /-- where a non-negative planned power comes from: nothing was put into `gc_loads` (value 0), or the value is
+  the result of the charging call for exactly that power -/
+  up : 0 ≤ pw → (pw = 0 ∧ val v = 0) ∨ ∃ bat', ops.load b.bat none none (some pw) = .ok (bat', val v)
 
 /-- one pass of the first battery loop -/
 theorem planBattery_spec (ops : BatOps α B) (law : BatLaw ops) (env : PEnv α) (hsum : ∀ l, env.sum l = l.sum)
@@ -102,7 +105,7 @@ theorem planBattery_spec (ops : BatOps α B) (law : BatLaw ops) (env : PEnv α) 
     (L info L' info' : List (String × α)) (hk : sdGet L b.id = none)
     (h : planBattery ops env window selfPeak curMax untilChange (L, info) b = .ok (L', info')) :
     ∃ pw v, info' = info ++ [(b.id, pw)] ∧ L' = ext L b.id v ∧ Agree ops b pw v ∧
-      (0 ≤ selfPeak → 0 ≤ tot L → 0 ≤ tot L + val v) ∧
+      (0 ≤ selfPeak → ∀ m, m ≤ 0 → m ≤ tot L → m ≤ tot L + val v) ∧
       (selfPeak ≤ curMax → tot L ≤ curMax → tot L + val v ≤ curMax) := by
   have hS : sumLoads env L = tot L := by unfold sumLoads tot; rw [hsum]
   unfold planBattery at h
@@ -119,7 +122,7 @@ theorem planBattery_spec (ops : BatOps α B) (law : BatLaw ops) (env : PEnv α) 
       have hl := law.unload_target _ _ _ _ hx
       have hpow : 0 ≤ tot L - selfPeak := le_trans hmin hge
       rw [max_eq_left hpow] at hl
-      refine ⟨-(tot L - selfPeak), some (-avg1), rfl, by rw [sdSet_absent _ _ _ hk]; rfl, ⟨?_, ?_, ?_⟩, ?_, ?_⟩
+      refine ⟨-(tot L - selfPeak), some (-avg1), rfl, by rw [sdSet_absent _ _ _ hk]; rfl, ⟨?_, ?_, ?_, ?_⟩, ?_, ?_⟩
       · intro bat' avg h0 _ hload
         have hp0 : tot L - selfPeak = 0 := le_antisymm (by linarith) hpow
         have h1 := law.load_target _ _ _ _ hload
@@ -141,7 +144,12 @@ theorem planBattery_spec (ops : BatOps α B) (law : BatLaw ops) (env : PEnv α) 
         apply hn
         rw [hp0] at hge ⊢
         simpa using hge
-      · intro hp _
+      · intro h0
+        have hp0 : tot L - selfPeak = 0 := le_antisymm (by linarith) hpow
+        rw [hp0] at hl
+        have : avg1 = 0 := le_antisymm hl.2 hl.1
+        exact Or.inl ⟨by rw [hp0]; ring, by simp only [val]; rw [this]; ring⟩
+      · intro hp m hm0 hmL
         simp only [val]; linarith
       · intro _ hle
         simp only [val]; linarith
@@ -155,7 +163,7 @@ theorem planBattery_spec (ops : BatOps α B) (law : BatLaw ops) (env : PEnv α) 
         have hl := law.load_target _ _ _ _ hx
         have hpow : 0 ≤ -(tot L - selfPeak) := by linarith
         rw [max_eq_left hpow] at hl
-        refine ⟨-(tot L - selfPeak), some avg1, rfl, by rw [sdSet_absent _ _ _ hk]; rfl, ⟨?_, ?_, ?_⟩, ?_, ?_⟩
+        refine ⟨-(tot L - selfPeak), some avg1, rfl, by rw [sdSet_absent _ _ _ hk]; rfl, ⟨?_, ?_, ?_, ?_⟩, ?_, ?_⟩
         · intro bat' avg _ _ hload
           rw [hx] at hload
           simp only [Except.ok.injEq, Prod.mk.injEq] at hload
@@ -164,14 +172,16 @@ theorem planBattery_spec (ops : BatOps α B) (law : BatLaw ops) (env : PEnv α) 
           exfalso; linarith
         · intro _ hn
           exfalso; apply hn; linarith
-        · intro _ h0
+        · intro _
+          exact Or.inr ⟨bat1, hx⟩
+        · intro _ m _ hmL
           simp only [val]; linarith
         · intro hpk _
           simp only [val]; linarith
       · rename_i hw hnge hnle
         simp only [Except.ok.injEq, Prod.mk.injEq] at h
         obtain ⟨rfl, rfl⟩ := h
-        refine ⟨0, none, rfl, rfl, ⟨?_, ?_, ?_⟩, ?_, ?_⟩
+        refine ⟨0, none, rfl, rfl, ⟨?_, ?_, ?_, ?_⟩, ?_, ?_⟩
         · intro bat' avg _ _ hload
           have h1 := law.load_target _ _ _ _ hload
           simp only [max_self] at h1
@@ -179,7 +189,8 @@ theorem planBattery_spec (ops : BatOps α B) (law : BatLaw ops) (env : PEnv α) 
         · intro bat' avg hneg _
           exact absurd hneg (lt_irrefl _)
         · intro _ _; rfl
-        · intro _ h0; simpa [val] using h0
+        · intro _; exact Or.inl ⟨rfl, rfl⟩
+        · intro _ m _ hmL; simpa [val] using hmL
         · intro _ hle; simpa [val] using hle
   · -- outside windows
     obtain ⟨p0, _, h⟩ := bind_ok h
@@ -194,7 +205,7 @@ theorem planBattery_spec (ops : BatOps α B) (law : BatLaw ops) (env : PEnv α) 
       have hl := law.load_target _ _ _ _ hx
       have hp2 : 0 ≤ min (curMax - tot L) p := le_trans hmin hge
       rw [max_eq_left hp2] at hl
-      refine ⟨min (curMax - tot L) p, some p3, rfl, by rw [sdSet_absent _ _ _ hk]; rfl, ⟨?_, ?_, ?_⟩, ?_, ?_⟩
+      refine ⟨min (curMax - tot L) p, some p3, rfl, by rw [sdSet_absent _ _ _ hk]; rfl, ⟨?_, ?_, ?_, ?_⟩, ?_, ?_⟩
       · intro bat' avg _ _ hload
         rw [hx] at hload
         simp only [Except.ok.injEq, Prod.mk.injEq] at hload
@@ -203,7 +214,9 @@ theorem planBattery_spec (ops : BatOps α B) (law : BatLaw ops) (env : PEnv α) 
         exfalso; linarith
       · intro _ hn
         exact absurd hge hn
-      · intro _ h0
+      · intro _
+        exact Or.inr ⟨bat1, hx⟩
+      · intro _ m _ hmL
         simp only [val]; linarith
       · intro _ _
         simp only [val]
@@ -211,7 +224,7 @@ theorem planBattery_spec (ops : BatOps α B) (law : BatLaw ops) (env : PEnv α) 
         linarith
     · simp only [Except.ok.injEq, Prod.mk.injEq] at h
       obtain ⟨rfl, rfl⟩ := h
-      refine ⟨0, none, rfl, rfl, ⟨?_, ?_, ?_⟩, ?_, ?_⟩
+      refine ⟨0, none, rfl, rfl, ⟨?_, ?_, ?_, ?_⟩, ?_, ?_⟩
       · intro bat' avg _ _ hload
         have h1 := law.load_target _ _ _ _ hload
         simp only [max_self] at h1
@@ -219,7 +232,8 @@ theorem planBattery_spec (ops : BatOps α B) (law : BatLaw ops) (env : PEnv α) 
       · intro bat' avg hneg _
         exact absurd hneg (lt_irrefl _)
       · intro _ _; rfl
-      · intro _ h0; simpa [val] using h0
+      · intro _; exact Or.inl ⟨rfl, rfl⟩
+      · intro _ m _ hmL; simpa [val] using hmL
       · intro _ hle; simpa [val] using hle
 
 /-! ### the first loop over all batteries -/
@@ -237,14 +251,15 @@ theorem planBatteries_spec (ops : BatOps α B) (law : BatLaw ops) (env : PEnv α
       bats.foldlM (planBattery ops env window selfPeak curMax untilChange) (L, info) = .ok (L1, info1) →
       ∃ tr : Tr α B, tr.map (·.1) = bats ∧ info1 = info ++ tr.map (fun x => (x.1.id, x.2.1)) ∧
         L1 = extAll L tr ∧ (∀ x ∈ tr, Agree ops x.1 x.2.1 x.2.2) ∧
-        (0 ≤ selfPeak → 0 ≤ tot L → 0 ≤ tot L1) ∧ (selfPeak ≤ curMax → tot L ≤ curMax → tot L1 ≤ curMax) := by
+        (0 ≤ selfPeak → ∀ m, m ≤ 0 → m ≤ tot L → m ≤ tot L1) ∧
+        (selfPeak ≤ curMax → tot L ≤ curMax → tot L1 ≤ curMax) := by
   intro bats
   induction bats with
   | nil =>
     intro L info L1 info1 _ _ _ h
     simp only [List.foldlM_nil, pure, Except.pure, Except.ok.injEq, Prod.mk.injEq] at h
     obtain ⟨rfl, rfl⟩ := h
-    exact ⟨[], rfl, by simp, rfl, by simp, fun _ h => h, fun _ h => h⟩
+    exact ⟨[], rfl, by simp, rfl, by simp, fun _ _ _ h => h, fun _ h => h⟩
   | cons b rest ih =>
     intro L info L1 info1 hnd hk hmin h
     simp only [List.foldlM_cons] at h
@@ -266,8 +281,8 @@ theorem planBatteries_spec (ops : BatOps α B) (law : BatLaw ops) (env : PEnv α
       rcases List.mem_cons.mp hx with rfl | hx
       · exact hag
       · exact h4 x hx
-    · intro hp h0
-      exact h5 hp (by rw [tot_ext]; exact hb1 hp h0)
+    · intro hp m hm0 hmL
+      exact h5 hp m hm0 (by rw [tot_ext]; exact hb1 hp m hm0 hmL)
     · intro hp h0
       exact h6 hp (by rw [tot_ext]; exact hb2 hp h0)
 
@@ -568,7 +583,7 @@ theorem stepGc_limit_bat (ops : BatOps α B) (law : BatLaw ops) (idem : LoadIdem
   have hL0 : 0 ≤ tot gc1.loads := by rw [htot1, c1]; linarith
   have hLle : tot gc1.loads ≤ gc1.curMax := by rw [htot1, c1, c2]; exact hsle
   have hcm0 : 0 ≤ gc1.curMax := by rw [c2]; exact le_trans hs hlim
-  have h10 : 0 ≤ tot L1 := t5 (by rw [pymin_eq]; exact le_min hpk0 hcm0) hL0
+  have h10 : 0 ≤ tot L1 := t5 (by rw [pymin_eq]; exact le_min hpk0 hcm0) 0 (le_refl _) hL0
   have h1le : tot L1 ≤ gc1.curMax := t6 (by rw [pymin_eq]; exact min_le_right _ _) hLle
   -- second battery loop
   rw [← t1] at h6
